@@ -459,6 +459,10 @@ MARKER_PROPS = {
     "PATHERR element-access-paths": {"C12", "C11"},
     "PATHERR element-structured-bindings": {"C12", "C11"},
     "PATHERR element-outside-own-block": {"C12", "C02"},
+    "PATHERR foreign-data-block": {"C08", "C07", "C09"},
+    "PATHERR foreign-table-block": {"C08", "C07", "C09"},
+    "PATHERR foreign-element-block": {"C12", "C08"},
+    "FOREIGNFREE": {"C08", "C07", "C12"},
 }
 
 
@@ -730,6 +734,23 @@ def oracle_C17(L, K, lines, steps, spec):
         for s in sp["slots"]:
             if sp["slots"][s] is not None and s not in st["vecs"] and s not in st["null"]:
                 v.append("step %d %s threw: vector %d was not observable afterwards" % (i, sp["op"], s))
+        # allocate first: before the failing allocation the step has done nothing but allocate,
+        # afterwards it only returns the blocks it had just obtained (theorems C17_*_allocates_first
+        # on the implementation's own event stream)
+        evs = st["events"]
+        k = next((n for n, e in enumerate(evs) if e[0] == "AFAIL"), None)
+        if k is not None:
+            got = set()
+            for e in evs[:k]:
+                if e[0] == "A":
+                    got.add(e[-1])
+                else:
+                    v.append("step %d %s threw: before the failing allocation the operation had already done %s" % (i, sp["op"], " ".join(e)))
+                    break
+            for e in evs[k + 1:]:
+                if not (e[0] == "D" and e[-1] in got):
+                    v.append("step %d %s threw: after the failing allocation the operation did %s (more than returning the blocks it had just obtained)" % (i, sp["op"], " ".join(e)))
+                    break
     v += oracle_C07(L, K, lines, steps, spec)
     v += oracle_C06(L, K, lines, steps, spec)
     return v[:5]
